@@ -50,10 +50,76 @@ pub fn cfg_text(td: &Td) -> String {
     s
 }
 
+/// Family (6), aimed at keyberon/src/layout.rs `event`'s overflow path with a tap-dance pending
+/// (`waiting_into_hold`, arm `WaitingConfig::TapDance`: the pending dance is resolved to its - empty -
+/// hold action and the oldest event is processed at once) and at the eager dance's index after a
+/// flood: more than 32 events arrive between two ticks while the dance waits.
+fn flood_family(lines: &mut Vec<String>) {
+    let (ka, kb) = (code("a"), code("b"));
+    for eager in [false, true] {
+        for t in [10u32, 200] {
+            for special in [Special::None, Special::Layer(1), Special::TapHoldLast(5)] {
+                let td = Td { len: 3, eager, t, special, red: Some(0) };
+                let cfg = cfg_text(&td);
+                // histories that END while the dance is pending: the final digest then compares
+                // the waiting state (tap count, countdown) / the eager state with the model
+                for j in [1u32, 2, t - 1] {
+                    lines.push(mk_line("LAY", false, &cfg, &[HEv::Press(0, ka), HEv::Tick(j)]));
+                    lines.push(mk_line("LAY", false, &cfg, &[HEv::Press(0, ka), HEv::Tick(1), HEv::Release(0, ka), HEv::Tick(1), HEv::Press(0, ka), HEv::Tick(j)]));
+                    lines.push(mk_line("LAY", false, &cfg, &[HEv::Press(0, ka), HEv::Release(0, ka), HEv::Press(0, kb), HEv::Tick(j)]));
+                }
+                for n in [30usize, 31, 32, 33, 40] {
+                    for lead in [0u32, 2] {
+                        for pat in 0..3 {
+                            // pat 0: the plain key only; 1: the dance key only (taps beyond the list);
+                            // 2: alternating
+                            let mut h = vec![HEv::Press(0, ka)];
+                            if lead > 0 {
+                                h.push(HEv::Tick(lead));
+                            }
+                            h.push(HEv::Release(0, ka));
+                            let mut down_a = false;
+                            let mut down_b = false;
+                            for i in 0..n {
+                                let use_a = match pat {
+                                    0 => false,
+                                    1 => true,
+                                    _ => (i / 2) % 2 == 0,
+                                };
+                                if use_a {
+                                    h.push(if down_a { HEv::Release(0, ka) } else { HEv::Press(0, ka) });
+                                    down_a = !down_a;
+                                } else {
+                                    h.push(if down_b { HEv::Release(0, kb) } else { HEv::Press(0, kb) });
+                                    down_b = !down_b;
+                                }
+                            }
+                            if down_a {
+                                h.push(HEv::Release(0, ka));
+                            }
+                            if down_b {
+                                h.push(HEv::Release(0, kb));
+                            }
+                            h.push(HEv::Tick(if t >= 100 { 450 } else { 250 }));
+                            lines.push(mk_line("LAY", false, &cfg, &h));
+                        }
+                    }
+                }
+            }
+        }
+    }
+}
+
 pub fn gen(tier: &str, seed: u64) -> Vec<String> {
     let mut r = Rng::new(seed ^ 0xC17);
     let thorough = tier == "thorough";
     let mut lines = vec![];
+    if tier == "cov" || tier == "covt" {
+        // only the families that were added to reach otherwise unexecuted code (debugging aid;
+        // "covt" = their thorough-tier size)
+        flood_family(&mut lines);
+        return lines;
+    }
     let (ka, kb) = (code("a"), code("b"));
     let tail = |t: u32| if t >= 100 { 450 } else { 250 };
     let gaps_of = |t: u32| -> Vec<u32> { vec![0, 1, t - 1, t, t + 1] };
@@ -192,5 +258,7 @@ pub fn gen(tier: &str, seed: u64) -> Vec<String> {
         let h = consistent_history(&mut r, &[ka, kb], n_ev, &gaps, tail(t));
         lines.push(mk_line("LAY", false, &cfg, &h));
     }
+    // (6) more than 32 events between two ticks while a dance is pending
+    flood_family(&mut lines);
     lines
 }
